@@ -139,7 +139,10 @@ def gen_iter(rnd):
     reversers = {"rev": "rev()", "rfind": "rfind(|_| true)", "rfold": "rfold(0u32, |a, _| a)", "rposition": "rposition(|_| true)"}
     # G5 double reversal
     for second in reversers:
-        for between in ([], ["copied()"], ["copied()", "map(|x| x)"], ["filter(|_| true)"]):
+        for between in ([], ["copied()"], ["copied()", "map(|x| x)"], ["filter(|_| true)"], ["take(2)"], ["skip(1)"], ["copied()", "take(2)", "map(|x| x)"], ["skip_while(|_| false)"], ["take_while(|_| true)"],
+                        ["copied()", "zip(0u8..9)", "map(|(x, _)| x)"], ["flatten_dummy"]):
+            if between == ["flatten_dummy"]:
+                continue
             bad_chain = ["rev()"] + between + [reversers[second]]
             good_chain = between + [reversers[second]]
             if second == "rev":
@@ -153,6 +156,15 @@ def gen_iter(rnd):
                 bad = "fn f() { let _ = konst::iter::eval!(%s); }\n" % ", ".join([src] + bad_chain)
                 good = "fn f() { let _ = konst::iter::eval!(%s); }\n" % ", ".join([src] + good_chain)
                 cases.append(Case("G5-double-reversal", "eval! rev .. %s (%d between)" % (second, len(between)), bad, good))
+    # a state-carrying adapter between the two reversals
+    for mid, fix in (("enumerate()", "map(|(_, x)| x)"), ("take(3)", None), ("skip(1)", None), ("zip(5u8..9)", "map(|(x, _)| x)")):
+        chain = ["copied()", "rev()", mid] + ([fix] if fix else [])
+        for second, stxt in reversers.items():
+            bad = "fn f() { let _ = konst::iter::eval!(%s); }\n" % ", ".join([src] + chain + [("rev(), count()" if second == "rev" else stxt)])
+            good = "fn f() { let _ = konst::iter::eval!(%s); }\n" % ", ".join([src] + [c for c in chain if c != "rev()"] + [("rev(), count()" if second == "rev" else stxt)])
+            cases.append(Case("G5-double-reversal", "eval! rev, %s, %s" % (mid.split("(")[0], second), bad, good))
+        cases.append(Case("G5-double-reversal", "for_each! rev, %s, rev" % mid.split("(")[0], "fn f() { konst::iter::for_each!{_x in %s => } }\n" % ", ".join([src] + chain + ["rev()"]), "fn f() { konst::iter::for_each!{_x in %s => } }\n" % ", ".join([src] + chain)))
+    cases.append(Case("G5-double-reversal", "collect_const! rev, take, rev", "const X: [usize; 3] = konst::iter::collect_const!(usize => 0..10, rev(), take(3), rev());\n", "const X: [usize; 3] = konst::iter::collect_const!(usize => 0..10, rev(), take(3));\n"))
     # three reversals are also rejected (odd count does not make it valid)
     cases.append(Case("G5-double-reversal", "eval! rev, rev, rev", "fn f() -> usize { konst::iter::eval!(%s, rev(), rev(), rev(), count()) }\n" % src, "fn f() -> usize { konst::iter::eval!(%s, rev(), count()) }\n" % src))
     # G6 unsupported methods
